@@ -212,7 +212,9 @@ Definition mismatches (cs : list ocase) : list (nat * (nat * nat)) :=
        failed;
     21 a step panicked;
     22 after a successful update the client type changed, the TSS key is not the header's, or the header's
-       consensus state is not stored at the header's height. *)
+       consensus state is not stored at the header's height;
+    23 (defined at the end) an installed, unexpired client: the proof gate at the installed height did not open
+       once the delay had passed, or opened before, or the installed consensus state / its metadata vanished. *)
 Definition cstore_eqb (a b : cstore) : bool :=
   list_eqb (fun x y => ckey_eqb (fst x) (fst y) && value_eqb (snd x) (snd y)) a b.
 
@@ -325,7 +327,7 @@ Definition update_must_succeed (pre : state) (pre_probes : list oprobe) (name : 
   | Some (ClTm latest trusting drift _ _), HTm trusted hh cns hv =>
       hv && (fst hh =? fst trusted) && h_lt trusted hh &&
       match get_cons TM trusted s with
-      | Some tc => negb (cs_ts tc + trusting <=? now pre) && (cs_ts tc <? cs_ts cns) && (cs_ts cns <=? now pre + drift)
+      | Some tc => negb (cs_ts tc + trusting <=? now pre) && (cs_ts tc <? cs_ts cns) && (cs_ts cns <? now pre + drift)
       | None => false
       end &&
       (* nothing foreign where the pruning step looks *)
@@ -360,7 +362,7 @@ Definition mon_update_post (post : state) (pre_type : option ctype) (name : byte
       if negb (opt_eqb ctype_eqb pre_type (Some (type_of cl))) then [22%nat] else
       match h, cl with
       | HTss addr rest, ClTss a r => if bytes_eqb a addr && bytes_eqb r rest then [] else [22%nat]
-      | HTm _ hh cns _, ClTm _ _ _ _ _ => if has_key (KCons hh) (VCons cns) s then [] else [22%nat]
+      | HTm _ hh cns _, ClTm _ _ _ _ _ => if has_key (KCons hh) (VCons (as_tm cns)) s then [] else [22%nat]
       | HEvm _ hd _, (ClBsc cur _ _ _ _ | ClEth cur _ _ _) =>
           if hdr_eqb cur hd &&
              match sget (KCons (eh_height hd)) s with
@@ -410,13 +412,93 @@ Definition mon_step (c : ocase) (preo : obs) (o : op) (posto : obs) : list nat :
         if stores_same_except None preo posto && relayers_same preo posto && bytes_eqb (o_rest preo) (o_rest posto) then [] else [12%nat]
     end.
 
-Fixpoint mon_steps (c : ocase) (i : nat) (preo : obs) (l : list ostep) : list (nat * nat) :=
-  match l with
-  | [] => []
-  | s :: l' => map (fun k => (i, k)) (mon_step c preo (os_op s) (os_obs s)) ++ mon_steps c (S i) (os_obs s) l'
+(** ** "... once the delay has passed": the installs of the case are tracked (chain name, proposal, block time of
+    the install) and after EVERY later step the observed gate outcome at the installed height is judged, as long
+    as the installed content is well-typed and not expired (then the pruning steps must have kept it:
+    Props/C18 [C18_update_keeps_unexpired]): while the delay (Tendermint: time since the install; BSC / ETH:
+    blocks of the counterparty above the installed height) has not passed the outcome is "delay", afterwards it is
+    "verified" (or "root mismatch" when the proposal carried another root than the fixture's); a Tendermint delay
+    that overflows a uint64 never passes (ea14df6).  Kind 23. *)
+(** an entry: chain name, the installing proposal, the block time of the install, and the SHORTEST trusting period
+    the client has had since (an upgrade may change it; the pruning steps in between used the one in force) *)
+Definition track := list (bytes * (proposal * (N * N))).
+
+Definition hdr_height_of (h : hdr) : option height :=
+  match h with HTm _ hh _ _ => Some hh | HEvm _ hd _ => Some (eh_height hd) | HTss _ _ => None end.
+
+Definition trusting_of (c : client_state) : N :=
+  match c with ClTm _ t _ _ _ => t | ClBsc _ _ _ t _ => t | ClEth _ _ t _ => t | ClTss _ _ => 0 end.
+
+Definition track_upd (tr : track) (o : op) (posto : obs) : track :=
+  if negb (Nat.eqb (o_class posto) 0) then tr else
+  match o with
+  | Create p | Toggle p =>
+      (p_name p, (p, (o_now posto, trusting_of (p_client p)))) :: filter (fun e => negb (bytes_eqb (fst e) (p_name p))) tr
+  | Upgrade p =>
+      (* an upgrade keeps what was installed before at OTHER heights (Props/C18 [C18_upgrade_frame]) *)
+      (p_name p, (p, (o_now posto, trusting_of (p_client p)))) ::
+      map (fun e => if bytes_eqb (fst e) (p_name p)
+                    then (fst e, (fst (snd e), (fst (snd (snd e)), N.min (snd (snd (snd e))) (trusting_of (p_client p)))))
+                    else e)
+          (filter (fun e => negb (bytes_eqb (fst e) (p_name p) && h_eqb (latest_of (p_client (fst (snd e)))) (latest_of (p_client p)))) tr)
+  | Update name h _ _ =>
+      (* an update TO the installed height overwrites what was installed there: nothing is promised any more *)
+      filter (fun e => negb (bytes_eqb (fst e) name && opt_eqb h_eqb (hdr_height_of h) (Some (latest_of (p_client (fst (snd e))))))) tr
+  | _ => tr
   end.
 
-Definition mon_case (c : ocase) : list (nat * nat) := mon_steps c 1 (oc_init c) (oc_steps c).
+(** not expired under trusting period [tr], by the rule of the client's type *)
+Definition cons_unexpired (tnow tr : N) (cl : client_state) (k : cons_state) : bool :=
+  match cl with
+  | ClTm _ _ _ _ _ => negb (cs_ts k + tr <=? tnow)
+  | ClBsc _ _ _ _ _ | ClEth _ _ _ _ => negb (evm_expired (cs_ts k) tr tnow)
+  | ClTss _ _ => true
+  end.
+
+Definition later_ok (c : ocase) (post : state) (probes : list oprobe) (e : bytes * (proposal * (N * N))) : bool :=
+  let name := fst e in
+  let p := fst (snd e) in
+  let t_inst := fst (snd (snd e)) in
+  let min_tr := snd (snd (snd e)) in
+  match client_of post name, find_probe name probes with
+  | Some cl, Some pr =>
+      let h := latest_of (p_client p) in
+      if negb (ctype_eqb (type_of cl) (type_of (p_client p))) then true else
+      if negb (ctype_eqb (cs_type (p_cons p)) (type_of cl) && cons_unexpired (now post) min_tr cl (p_cons p)) then true else
+      match gate_at h pr with
+      | None => true
+      | Some g =>
+          let opened := if bytes_eqb (cs_root (p_cons p)) (fx_of c cl) then 0%nat else 6%nat in
+          match cl with
+          | ClTm latest _ _ delay _ =>
+              if h_lt latest h then true else
+              let v := add64 t_inst delay in
+              if (v <? t_inst) || (now post <? v) then Nat.eqb g 5 else Nat.eqb g opened
+          | ClBsc cur _ vals _ _ =>
+              if h_lt (eh_height cur) h || negb (fst h =? fst (eh_height cur)) then true else
+              if sub64 (snd (eh_height cur)) (snd h) <? lenN vals / 2 + 1 then Nat.eqb g 1 else Nat.eqb g opened
+          | ClEth cur bd _ _ =>
+              if h_lt (eh_height cur) h || negb (fst h =? fst (eh_height cur)) then true else
+              if sub64 (snd (eh_height cur)) (snd h) <? bd then Nat.eqb g 1 else Nat.eqb g opened
+          | ClTss _ _ => Nat.eqb g 0
+          end
+      end
+  | _, _ => true
+  end.
+
+Definition mon_later (c : ocase) (tr : track) (posto : obs) : list nat :=
+  if forallb (later_ok c (state_of_obs posto) (o_probes posto)) tr then [] else [23%nat].
+
+Fixpoint mon_steps (c : ocase) (i : nat) (tr : track) (preo : obs) (l : list ostep) : list (nat * nat) :=
+  match l with
+  | [] => []
+  | s :: l' =>
+      let tr' := track_upd tr (os_op s) (os_obs s) in
+      map (fun k => (i, k)) (mon_step c preo (os_op s) (os_obs s) ++ mon_later c tr' (os_obs s))
+      ++ mon_steps c (S i) tr' (os_obs s) l'
+  end.
+
+Definition mon_case (c : ocase) : list (nat * nat) := mon_steps c 1 [] (oc_init c) (oc_steps c).
 
 Definition monitor_failures (cs : list ocase) : list (nat * (nat * nat)) :=
   flat_map (fun ic => map (fun m => (fst ic, m)) (mon_case (snd ic))) (number 0 cs).
